@@ -863,4 +863,155 @@ example : ([NOp.add "p" "p" ["a"], .add "p" "p" ["a"], .remove "p" "p" ["a"]].fo
     ({ demo with autoSave := true, adapter := AdapterSt.mk0 .memory } : Enforcer)).log =
     [Event.addPolicy "p" "p" ["a"], Event.removePolicy "p" "p" ["a"]] := by decide +kernel
 
+/-! ### … and `clear_policy` / `save_policy` with auto-save on or off -/
+
+/-- the model-side part of `clear_policy`, whatever the auto-save switch says -/
+theorem clearGo_step (x : Enforcer) (hl : Live x) (ha : ∀ a ∈ x.store.gArities, 2 ≤ a) (r : Enforcer × Option ErrKind)
+    (hr : r = (if ({ x with store := x.store.clear } : Enforcer).autoBuild then ({ x with store := x.store.clear } : Enforcer).buildRoleLinks
+      else (({ x with store := x.store.clear } : Enforcer), none))) :
+    (match r with
+      | (e, r) => match r with
+        | some k => (e, Res.err k)
+        | none => (e.emit .clearPolicy, Res.unit)).1.store = x.store.clear ∧
+    (match r with
+      | (e, r) => match r with
+        | some k => (e, Res.err k)
+        | none => (e.emit .clearPolicy, Res.unit)).1.log = x.log ++ [Event.clearPolicy] ∧
+    Live (match r with
+      | (e, r) => match r with
+        | some k => (e, Res.err k)
+        | none => (e.emit .clearPolicy, Res.unit)).1 := by
+  have hl0 : Live ({ x with store := x.store.clear } : Enforcer) := ⟨hl.notify, hl.one, hl.watcher⟩
+  by_cases hb : ({ x with store := x.store.clear } : Enforcer).autoBuild = true
+  · rw [if_pos hb] at hr
+    have hnone := buildRoleLinks_cleared x ha
+    obtain ⟨f1, f2, _, f4, f5, f6, _⟩ := buildRoleLinks_fields ({ x with store := x.store.clear } : Enforcer)
+    obtain ⟨e2, res⟩ := r
+    have hres : res = none := by rw [← hr] at hnone; exact hnone
+    subst hres
+    have he2 : e2 = ({ x with store := x.store.clear } : Enforcer).buildRoleLinks.1 := by rw [← hr]
+    subst he2
+    have hl2 : Live ({ x with store := x.store.clear } : Enforcer).buildRoleLinks.1 :=
+      ⟨by rw [f4]; exact hl.notify, by rw [f5]; exact hl.one, by rw [f6]; exact hl.watcher⟩
+    refine ⟨?_, ?_, live_emit _ hl2 _⟩
+    · show (Enforcer.emit _ _).store = _
+      rw [emit_store_eq]; exact f1
+    · show (Enforcer.emit _ _).log = _
+      rw [emit_live _ hl2, f2]
+  · rw [if_neg hb] at hr
+    subst hr
+    refine ⟨?_, ?_, live_emit _ hl0 _⟩
+    · show (Enforcer.emit _ _).store = _
+      rw [emit_store_eq]
+    · show (Enforcer.emit _ _).log = _
+      rw [emit_live _ hl0]
+
+/-- `clear_policy`, auto-save on or off: the adapter fails and nothing happens, or the rules are gone and exactly one
+`ClearPolicy` is delivered -/
+theorem clear_step_any (e : Enforcer) (hl : Live e) (ha : ∀ a ∈ e.store.gArities, 2 ≤ a) :
+    (e.clearPolicy.1.store = e.store ∧ e.clearPolicy.1.log = e.log ∧ Live e.clearPolicy.1) ∨
+    (e.clearPolicy.1.store = e.store.clear ∧ e.clearPolicy.1.log = e.log ++ [Event.clearPolicy] ∧ Live e.clearPolicy.1) := by
+  unfold Enforcer.clearPolicy
+  split
+  · split
+    · exact Or.inl ⟨rfl, rfl, ⟨hl.notify, hl.one, hl.watcher⟩⟩
+    · rename_i a _
+      exact Or.inr (clearGo_step ({ e with adapter := a } : Enforcer) ⟨hl.notify, hl.one, hl.watcher⟩ ha _ rfl)
+  · exact Or.inr (clearGo_step e hl ha _ rfl)
+
+/-- `save_policy` does not look at the auto-save switch -/
+theorem save_step_any (e : Enforcer) (hl : Live e) :
+    e.savePolicy.1.store = e.store ∧
+    (e.savePolicy.1.log = e.log ∨
+      e.savePolicy.1.log = e.log ++ [Event.savePolicy (e.store.allOf "p" ++ e.store.allOf "g")]) ∧
+    Live e.savePolicy.1 := by
+  unfold Enforcer.savePolicy
+  by_cases hf : e.adapter.filtered = true
+  · rw [if_pos hf]; exact ⟨rfl, Or.inl rfl, hl⟩
+  · rw [if_neg hf]
+    cases hsv : e.adapter.save e.store with
+    | mk a ok =>
+      cases ok with
+      | none => exact ⟨rfl, Or.inl rfl, ⟨hl.notify, hl.one, hl.watcher⟩⟩
+      | some u =>
+        simp only []
+        have hl2 : Live ({ e with adapter := a } : Enforcer) := ⟨hl.notify, hl.one, hl.watcher⟩
+        refine ⟨?_, Or.inr ?_, live_emit _ hl2 _⟩
+        · rw [emit_store_eq]
+        · rw [emit_live _ hl2]
+
+/-- `ReadyAny`, and every role definition has the two places linking needs -/
+structure ReadyAll (e : Enforcer) : Prop where
+  ready : ReadyAny e
+  arity : ∀ a ∈ e.store.gArities, 2 ≤ a
+
+theorem run_gArities_any (e : Enforcer) (h : ReadyAny e) (op : NOp) : (op.run e).store.gArities = e.store.gArities := by
+  by_cases hs : e.autoSave = true
+  · rcases run_on e hs op with ⟨a, h1⟩ | ⟨a, h1⟩
+    · rw [h1]
+    · rw [h1]
+      exact run_gArities (({ e with adapter := a } : Enforcer).withSave false)
+        ⟨rfl, ⟨h.live.notify, h.live.one, h.live.watcher⟩, h.wf⟩ op
+  · have hs' : e.autoSave = false := by cases hh : e.autoSave <;> simp_all
+    exact run_gArities e ⟨hs', h.live, h.wf⟩ op
+
+theorem wstep_follows_all (e : Enforcer) (h : ReadyAll e) (op : WOp) :
+    (∃ evs, (op.run e).log = e.log ++ evs ∧ SEq (evs.foldl applyEvent e.store) (op.run e).store) ∧
+    ReadyAll (op.run e) := by
+  cases op with
+  | mgmt op =>
+    obtain ⟨h1, h2⟩ := step_follows_any e h.ready op
+    refine ⟨h1, h2, ?_⟩
+    show ∀ a ∈ (op.run e).store.gArities, 2 ≤ a
+    rw [run_gArities_any e h.ready op]; exact h.arity
+  | clear =>
+    rcases clear_step_any e h.ready.live h.arity with ⟨h1, h2, h3⟩ | ⟨h1, h2, h3⟩
+    · refine ⟨⟨[], by rw [List.append_nil]; exact h2, ?_⟩, ⟨h3, ?_⟩, ?_⟩
+      · show SEq e.store e.clearPolicy.1.store
+        rw [h1]; exact SEq.refl _
+      · show e.clearPolicy.1.store.WF
+        rw [h1]; exact h.ready.wf
+      · show ∀ a ∈ e.clearPolicy.1.store.gArities, 2 ≤ a
+        rw [h1]; exact h.arity
+    · refine ⟨⟨[Event.clearPolicy], h2, ?_⟩, ⟨h3, ?_⟩, ?_⟩
+      · show SEq (applyEvent e.store Event.clearPolicy) e.clearPolicy.1.store
+        rw [h1]; exact SEq.refl _
+      · intro sec pt
+        show (e.clearPolicy.1.store.getPolicy sec pt).Nodup
+        rw [h1, getPolicy_clear']; exact List.nodup_nil
+      · show ∀ a ∈ e.clearPolicy.1.store.gArities, 2 ≤ a
+        rw [h1, Store.clear_gArities]; exact h.arity
+  | save =>
+    obtain ⟨h1, h2, h3⟩ := save_step_any e h.ready.live
+    refine ⟨?_, ⟨h3, ?_⟩, ?_⟩
+    · rcases h2 with h2 | h2
+      · refine ⟨[], by rw [List.append_nil]; exact h2, ?_⟩
+        show SEq e.store e.savePolicy.1.store
+        rw [h1]; exact SEq.refl _
+      · refine ⟨[Event.savePolicy (e.store.allOf "p" ++ e.store.allOf "g")], h2, ?_⟩
+        show SEq e.store e.savePolicy.1.store
+        rw [h1]; exact SEq.refl _
+    · show e.savePolicy.1.store.WF
+      rw [h1]; exact h.ready.wf
+    · show ∀ a ∈ e.savePolicy.1.store.gArities, 2 ≤ a
+      rw [h1]; exact h.arity
+
+/-- **the changelog is faithful over every history of management calls, `clear_policy` and `save_policy`, with auto-save on
+or off, auto-build on or off, and whatever the adapter answers to any of them** -/
+theorem replica_history_all (ops : List WOp) (e : Enforcer) (h : ReadyAll e) :
+    ∃ evs, (ops.foldl WOp.run e).log = e.log ++ evs ∧
+      SEq (evs.foldl applyEvent e.store) (ops.foldl WOp.run e).store := by
+  induction ops generalizing e with
+  | nil => exact ⟨[], by simp, SEq.refl _⟩
+  | cons op ops ih =>
+    obtain ⟨⟨ev1, hl1, hs1⟩, hnext⟩ := wstep_follows_all e h op
+    obtain ⟨evs', hl2, hs2⟩ := ih (op.run e) hnext
+    refine ⟨ev1 ++ evs', ?_, ?_⟩
+    · simp only [List.foldl_cons]; rw [hl2, hl1, List.append_assoc]
+    · simp only [List.foldl_cons, List.foldl_append]
+      exact SEq.trans (foldEvents_congr evs' hs1) hs2
+
+example : ReadyAll ({ demo with autoSave := true, adapter := AdapterSt.mk0 .memory } : Enforcer) :=
+  ⟨⟨⟨rfl, rfl, rfl⟩, demo_ready.wf⟩, by intro a ha; simp [Store.gArities, demo] at ha⟩
+
 end Casbin.C14
